@@ -13,11 +13,15 @@ package main
 
 import (
 	"encoding/json"
+	"io"
+
+	"github.com/sirupsen/logrus"
 
 	"verifharness/hx"
 )
 
 func main() {
+	logrus.SetOutput(io.Discard) // the library logs key-fetch failures; stderr is reserved for race reports
 	hx.Register("c19dns", "replay DNSCache_gen schedules against the real fclient.DNSCache", func(a *hx.Args) error {
 		stop, err := dnsSetup()
 		if err != nil {
